@@ -218,7 +218,7 @@ func c07GenPat(c *sim.Case, label string) c07Pat {
 func TestC07(t *testing.T) {
 	r := sim.NewRun(t, "C07")
 	defer r.Finish()
-	r.Rule = "rule sets x request targets path[?query][#fragment]; exhaustive part: every single-rule set with <=1 excluded and <=1 included pattern from a fixed pool x every target up to a length over {/ a b . ? #}; random part: 0-3 rules with 0-2 patterns per list and targets to length 8. Non-trivial = target has a query or fragment AND some pattern of the rule set matches the full target differently from its path component; distinct = distinct (rules, target)."
+	r.Rule = "rule sets x request targets path[?query][#fragment]; exhaustive part: every single-rule set with <=1 excluded and <=1 included pattern from a fixed pool x every target up to a length over {/ a b . ? #}; random part: 0-3 rules with 0-3 patterns per list and targets to length 8. Non-trivial = target has a query or fragment AND some pattern of the rule set matches the full target differently from its path component; distinct = distinct (rules, target)."
 	r.Assumptions = []string{
 		"Envoy places path and query together in HttpRequest.path (documented ext_authz behaviour)",
 		"regex leaf semantics = Go RE2 unanchored search, invalid expression = no match (what the code documents by using regexp.MatchString)",
@@ -245,10 +245,10 @@ func TestC07(t *testing.T) {
 		nr := sim.Weighted(c, "nrules", 1, 4, 3, 2)
 		rules := make([]c07Rule, nr)
 		for i := range rules {
-			for j, n := 0, sim.Pick(c, "nex", 3); j < n; j++ {
+			for j, n := 0, sim.Pick(c, "nex", 4); j < n; j++ {
 				rules[i].Ex = append(rules[i].Ex, c07GenPat(c, "ex"))
 			}
-			for j, n := 0, sim.Pick(c, "nin", 3); j < n; j++ {
+			for j, n := 0, sim.Pick(c, "nin", 4); j < n; j++ {
 				rules[i].In = append(rules[i].In, c07GenPat(c, "in"))
 			}
 		}
